@@ -518,6 +518,14 @@ class Function(Value):
         self.__constants = {}
         self.__uses = defaultdict(list)
 
+    def __setstate__(self, state):
+        self.__dict__.update(state)
+        # Stored branches name their target blocks by reference
+        for basicBlock in self.__basicBlocks:
+            for instruction in basicBlock.Instructions:
+                if isinstance(instruction, BranchInstruction):
+                    instruction.LinkStoredBlocks(self.__values)
+
     def CreateBasicBlock(self):
         bb = BasicBlock(self)
         self.RegisterValue(bb)
@@ -738,6 +746,13 @@ class CompareInstruction(Instruction):
         return [v.Reference for v in self.__values]
 
 
+class _StoredBlock:
+    """Stands for a target block inside a stored branch instruction."""
+
+    def __init__(self, reference: int):
+        self.Reference = reference
+
+
 class BranchInstruction(Instruction):
     def __init__(
         self,
@@ -749,6 +764,24 @@ class BranchInstruction(Instruction):
         self.__trueBlock: Optional[BasicBlock] = trueBlock
         self.__falseBlock: Optional[BasicBlock] = falseBlock
         self.__predicate = predicate
+
+    def __getstate__(self):
+        # A stored branch names its target blocks by reference. Storing the
+        # block objects makes pickle descend from a branch into its target
+        # block, from there into the next branch and so on, which exceeds the
+        # recursion limit once a function has a few hundred blocks. The
+        # function links the blocks again when it is loaded
+        state = self.__dict__.copy()
+        for key, value in state.items():
+            if isinstance(value, BasicBlock):
+                state[key] = _StoredBlock(value.Reference)
+        return state
+
+    def LinkStoredBlocks(self, values: List[Value]):
+        if isinstance(self.__trueBlock, _StoredBlock):
+            self.__trueBlock = values[self.__trueBlock.Reference]
+        if isinstance(self.__falseBlock, _StoredBlock):
+            self.__falseBlock = values[self.__falseBlock.Reference]
 
     def ReplaceUses(self, ref, newValue):
         assert self.__trueBlock is not None
